@@ -128,6 +128,7 @@ def run_case(case, ctx):
             ctx.violations[-1]["case_override"] = only
             continue
         got = [canon_ranking(r) for r in out.cons.consensus_rankings]
+        ctx.event("result", sorted(jsonable_ranking(r) for r in got) if len(got) > 1 else [jsonable_ranking(r) for r in got])
         for r in got:
             s = model.ref_score(r, mr, B, T)
             ctx.probe("rankings_scored")
